@@ -11,7 +11,7 @@
 
    Hypotheses forced by the proofs, each replayed on the real code by the check:
    w <> 0 (Planar), row <> 0 (WeightNormalization), 0 < y (constructor arguments), lo < hi and
-   raw <> [] (spline), slope <= 1 (Planar, see C11_planar_slope_gt1_refuted), md < 1, rate <> 0. *)
+   raw <> [] (spline), md < 1, rate <> 0. *)
 From Coq Require Import Reals List ZArith Bool Sorted Permutation Lra Lia.
 From FJ Require Import Model.Num Model.Constr Proofs.RNum Proofs.ConstrP.
 Import ListNotations.
@@ -81,20 +81,24 @@ Theorem C11_derivatives_floor :
 Proof. exact derivatives_all. Qed.
 Print Assumptions C11_derivatives_floor.
 
-(* ---- planar: w . u_hat > -1 for every raw (w, u) with w <> 0, any dimension; hence the denominator
-        1 + w.(u_hat*slope) of the leaky-relu inverse is positive for slopes in (0, 1] ---- *)
+(* ---- planar (as repaired by fix e65a946): for every raw (w, u) with w <> 0, any dimension:
+        tanh activation: w . u_hat > -1;  leaky relu with EVERY slope > 0 the constructor accepts:
+        w . u_hat > -1/max(1, slope), and both denominators of the analytic inverse, 1 + w.(u_hat*1) and
+        1 + w.(u_hat*slope), are positive ---- *)
 Theorem C11_planar_invertible : forall w u, nonzero w -> length u = length w ->
-  -1 < planar_wu ROps w u /\ (forall s, 0 < s <= 1 -> 0 < planar_denom ROps s w u).
+  -1 < planar_wu ROps None w u /\
+  (forall slope, 0 < slope ->
+     - 1 / Rmax 1 slope < planar_wu ROps (Some slope) w u /\
+     0 < planar_denom ROps slope 1 w u /\ 0 < planar_denom ROps slope slope w u).
 Proof. exact planar_all. Qed.
 Print Assumptions C11_planar_invertible.
 
-(* Full statement "the layer stays invertible for every slope the constructor accepts", i.e.
-     forall s w u, planar_rejects s = false -> nonzero w -> length u = length w -> 0 < planar_denom s w u,
-   is FALSE of the model.  Witness: slope 2, w = [1], u = [-5] (replayed on the real code by the check). *)
-Theorem C11_planar_slope_gt1_refuted : exists s w u,
-  planar_rejects ROps s = false /\ nonzero w /\ length u = length w /\ planar_denom ROps s w u < 0.
-Proof. exact planar_slope_gt1_refuted. Qed.
-Print Assumptions C11_planar_slope_gt1_refuted.
+(* The formula before the fix (constraint value not divided by max(1, slope)) does NOT give this for slopes > 1:
+   witness slope 2, w = [1], u = [-5] (the old failing input; the check replays it on the current code). *)
+Theorem C11_planar_slope_gt1_old_refuted : exists s w u,
+  planar_rejects ROps s = false /\ nonzero w /\ length u = length w /\ planar_denom_old ROps s w u < 0.
+Proof. exact planar_slope_gt1_old_refuted. Qed.
+Print Assumptions C11_planar_slope_gt1_old_refuted.
 
 (* ---- mixture weights: positive, summing to 1, for any raw logits and any number of components;
         construction from (unnormalised) positive weights gives w / sum w ---- *)
